@@ -26,4 +26,5 @@ EXTRAS = [
     lambda rep, fb, tier: __import__("vf.rules.pybind", fromlist=["x"]).rule_py_bindings(rep),
     lambda rep, fb, tier: pyrules.rule_py_call_signature(rep),
     lambda rep, fb, tier: pyrules.rule_py_highlevel_returns(rep),
+    lambda rep, fb, tier: __import__("vf.rules.pyrules", fromlist=["x"]).rule_py_defassign(rep),
 ]
